@@ -708,7 +708,7 @@ pub fn main(args: &[String]) {
         },
         "assumptions": [
             "a position counts as key-dependent only if it is identical over three rebuilds from the same key in perturbed contexts and differs for some pair of 8 keys of the same length (context-dependent stack garbage in padding or an unused union tail is thereby excluded)",
-            "ARMv8/NEON types are not covered natively (no such hardware here)"
+            "ARMv8/NEON types are not covered natively (no such hardware here); the interpreter engine (coverage.miri_c16) inspects them"
         ],
         "wall_s": wall,
         "violations": violations.len(),
